@@ -230,7 +230,7 @@ func runContracts(eng *Engine, prop, fnFilter, work string, timeout time.Duratio
 			switch {
 			case j.o.Cover && r.verdict == "unsat":
 				res.Verdict = "vacuous"
-				if strings.Contains(j.o.Name, "#cover:return") || strings.Contains(j.o.Name, "#cover:after.") {
+				if strings.Contains(j.o.Name, "#cover:return") || strings.Contains(j.o.Name, "#cover:after.") || strings.Contains(j.o.Name, ".backedge.from") || strings.Contains(j.o.Name, ".later-iteration.from") {
 					res.Verdict = "unreachable" // dead under the precondition: reported, not a failure
 				}
 			case j.o.Cover:
@@ -274,6 +274,41 @@ func runContracts(eng *Engine, prop, fnFilter, work string, timeout time.Duratio
 		}(i, j)
 	}
 	wg.Wait()
+	// loops pinned to their first iteration: some back edge is reachable, but none from a head state that
+	// differs from the entry state
+	type loopProbe struct{ back, later bool }
+	probes := map[string]*loopProbe{}
+	loopOf := func(name string) (string, string) {
+		for _, tag := range []string{".backedge.from", ".later-iteration.from"} {
+			if i := strings.Index(name, tag); i >= 0 {
+				return name[:i], tag
+			}
+		}
+		return "", ""
+	}
+	for _, r := range results {
+		if l, tag := loopOf(r.Name); l != "" {
+			p := probes[l]
+			if p == nil {
+				p = &loopProbe{}
+				probes[l] = p
+			}
+			if r.Verdict == "covered" {
+				if tag == ".backedge.from" {
+					p.back = true
+				} else {
+					p.later = true
+				}
+			}
+		}
+	}
+	for i := range results {
+		if l, tag := loopOf(results[i].Name); l != "" && tag == ".later-iteration.from" {
+			if p := probes[l]; p != nil && p.back && !p.later && results[i].Verdict == "unreachable" {
+				results[i].Verdict = "vacuous"
+			}
+		}
+	}
 	for _, r := range results {
 		if r.Verdict == "failed" || r.Verdict == "failed-nomodel" || r.Verdict == "vacuous" {
 			run.Failed++
